@@ -771,6 +771,83 @@ def _record_fields(P: Program, e: ast.expr) -> Optional[ast.expr]:
 _RECS: List = [()]
 
 
+def _local_dict_views(f: Func) -> Func:
+    """A local `D = {k1: v1, ..}` of plain keys and values that is bound once, never stored into and only looked at as a whole (`for k in D`, `D.keys()`,
+    `D.values()`, `D.items()`, `len(D)`) is the tuples it holds:  `[p.value for p in D]` -> `[p.value for p in (k1, ..)]`,  `list(D.values())` -> `list((v1, ..))`."""
+    for d in [n for n in own_nodes(f.node) if isinstance(n, ast.Assign) and len(n.targets) == 1 and isinstance(n.targets[0], ast.Name) and isinstance(n.value, ast.Dict)
+              and n.value.keys and all(k is not None for k in n.value.keys)]:
+        D = d.targets[0].id
+        def plain(x):
+            return _scalar_literal(x) or isinstance(x, ast.Name) or norm.attr_chain(x) is not None
+        if not all(plain(k) for k in d.value.keys) or not all(plain(v) for v in d.value.values) or D in f.params():
+            continue
+        occ = [n for n in own_nodes(f.node) if isinstance(n, ast.Name) and n.id == D]
+        if sum(1 for n in occ if isinstance(n.ctx, (ast.Store, ast.Del))) != 1:
+            continue
+        # the operands of keys and values are not bound again in the function (parameters, single-assignment locals, attribute chains of them)
+        roots = {x.id for e in list(d.value.keys) + list(d.value.values) for x in ast.walk(e) if isinstance(x, ast.Name)}
+        stores: Dict[str, int] = {}
+        for x in own_nodes(f.node):
+            if isinstance(x, ast.Name) and isinstance(x.ctx, (ast.Store, ast.Del)):
+                stores[x.id] = stores.get(x.id, 0) + 1
+        if any(stores.get(r, 0) > (0 if r in f.params() else 1) for r in roots):
+            continue
+        order = source_order(f.node)
+        plan = []
+        ok = True
+        for n in occ:
+            if not isinstance(n.ctx, ast.Load):
+                continue
+            if order.get(id(n), (0, 0))[0] < order.get(id(d), (0, 0))[1]:
+                ok = False
+                break
+            p_ = parent(n)
+            if isinstance(p_, ast.Attribute) and p_.value is n and p_.attr in ("keys", "values", "items") and isinstance(parent(p_), ast.Call) and parent(p_).func is p_ \
+                    and not parent(p_).args and not parent(p_).keywords:
+                plan.append((parent(p_), p_.attr))
+            elif isinstance(p_, ast.comprehension) and p_.iter is n:
+                plan.append((n, "keys"))
+            elif isinstance(p_, ast.For) and p_.iter is n:
+                plan.append((n, "keys"))
+            elif isinstance(p_, ast.Call) and norm.is_name(p_.func, "len") and len(p_.args) == 1:
+                plan.append((p_, "len"))
+            else:
+                ok = False
+                break
+        if not ok or not plan:
+            continue
+        node = norm.clone(f.node)
+        m = {id(a): b for a, b in zip(ast.walk(f.node), ast.walk(node))}
+        cd = m[id(d)]
+        for old, kind in plan:
+            tgt = m[id(old)]
+            if kind == "keys":
+                new = ast.Tuple(elts=[norm.clone(k) for k in cd.value.keys], ctx=ast.Load())
+            elif kind == "values":
+                new = ast.Tuple(elts=[norm.clone(v) for v in cd.value.values], ctx=ast.Load())
+            elif kind == "items":
+                new = ast.Tuple(elts=[ast.Tuple(elts=[norm.clone(k), norm.clone(v)], ctx=ast.Load()) for k, v in zip(cd.value.keys, cd.value.values)], ctx=ast.Load())
+            else:
+                new = ast.Constant(value=len(cd.value.keys))
+            keep = {k2: getattr(tgt, k2) for k2 in ("lineno", "col_offset", "end_lineno", "end_col_offset") if hasattr(tgt, k2)}
+            tgt.__class__ = new.__class__
+            tgt.__dict__.clear()
+            tgt.__dict__.update(new.__dict__)
+            tgt.__dict__.update(keep)
+        par = parent(d)
+        cpar = m[id(par)] if par is not None and id(par) in m else node
+        for fld, blk in _block_lists(cpar):
+            if any(x is cd for x in blk):
+                blk[:] = [x for x in blk if x is not cd] or [ast.copy_location(ast.Pass(), cd)]
+        ast.fix_missing_locations(node)
+        for n in ast.walk(node):
+            for ch in ast.iter_child_nodes(n):
+                ch._parent = n  # type: ignore[attr-defined]
+        node._parent = getattr(f.node, "_parent", None)  # type: ignore[attr-defined]
+        return _local_dict_views(Func(f.mod, f.qual, node, f.cls))
+    return f
+
+
 def _propagate_literals(f: Func) -> Func:
     """`a, b = (1, 'x')` -> `a = 1; b = 'x'`, and a scalar literal bound to a local stands for it in the statements of the same block that follow, up to
     the next binding of the name (the copies a written-out table loop makes: `cpu__i1 = 1 ... Segment(baseline_cpu_seconds=cpu__i1)`)."""
@@ -824,6 +901,98 @@ def _propagate_literals(f: Func) -> Func:
     return Func(f.mod, f.qual, node, f.cls)
 
 
+_PROP_CACHE: Dict = {}
+
+
+def _new_properties(P: Program):
+    """({property name: [(class name, expression over `self`)]} for read-only one-expression @property methods the pinned tree does not have,
+        {class name: names of everything an instance of it has})"""
+    k = id(P)
+    if k not in _PROP_CACHE or _PROP_CACHE[k][0] is not P:
+        pinned = pinned_public_names()
+        props: Dict[str, List[Tuple[str, ast.expr]]] = {}
+        attrs: Dict[str, Set[str]] = {}
+        for m in P.real_modules():
+            for cname, c in m.classes.items():
+                have = attrs.setdefault(cname, set())
+                for st in c.node.body:
+                    if isinstance(st, (ast.FunctionDef, ast.AsyncFunctionDef)):
+                        have.add(st.name)
+                        for x in ast.walk(st):
+                            if isinstance(x, ast.Attribute) and isinstance(x.ctx, ast.Store) and isinstance(x.value, ast.Name) and st.args.args and x.value.id == st.args.args[0].arg:
+                                have.add(x.attr)
+                    elif isinstance(st, ast.Assign):
+                        have.update(t.id for t in st.targets if isinstance(t, ast.Name))
+                    elif isinstance(st, ast.AnnAssign) and isinstance(st.target, ast.Name):
+                        have.add(st.target.id)
+                for name, meth in c.methods.items():
+                    ds = meth.decorators()
+                    if len(ds) == 1 and isinstance(ds[0], ast.Name) and ds[0].id == "property" and name not in pinned and not name.startswith("__") \
+                            and not any(isinstance(d2, ast.Attribute) and d2.attr in ("setter", "deleter") and norm.is_name(d2.value, name)
+                                        for o in c.node.body if isinstance(o, ast.FunctionDef) for d2 in o.decorator_list):
+                        body = [s for s in meth.node.body if not (isinstance(s, ast.Expr) and isinstance(s.value, ast.Constant)) and not isinstance(s, ast.Pass)]
+                        if len(body) == 1 and isinstance(body[0], ast.Return) and body[0].value is not None and len(meth.params()) == 1:
+                            props.setdefault(name, []).append((cname, meth.params()[0], body[0].value))
+        # base classes contribute their attributes
+        for m in P.real_modules():
+            for cname, c in m.classes.items():
+                for b in c.node.bases:
+                    if isinstance(b, ast.Name) and b.id in attrs:
+                        attrs[cname] |= attrs[b.id]
+        _PROP_CACHE[k] = (P, props, attrs)
+    return _PROP_CACHE[k][1], _PROP_CACHE[k][2]
+
+
+def _inline_new_properties(P: Program, f: Func) -> Func:
+    """`x.p` where p is a read-only one-expression property that the pinned tree does not have and x can only be an instance of the class that defines it
+    (x is `self` inside that class, or every attribute the function uses on x exists on that class and on no other class of the package) stands
+    for the property's expression:  `c.ram` -> `c.assignment.ram`."""
+    props, attrs = _new_properties(P)
+    if not props:
+        return f
+    uses = [a for a in own_nodes(f.node) if isinstance(a, ast.Attribute) and isinstance(a.ctx, ast.Load) and a.attr in props and isinstance(a.value, ast.Name)]
+    if not uses:
+        return f
+    used_on: Dict[str, Set[str]] = {}
+    for a in own_nodes(f.node):
+        if isinstance(a, ast.Attribute) and isinstance(a.value, ast.Name):
+            used_on.setdefault(a.value.id, set()).add(a.attr)
+    params = f.params()
+
+    def class_of(recv: str) -> Optional[str]:
+        if f.cls and params and recv == params[0] and "." in f.qual and not _is_static(f):
+            return f.cls
+        cands = [c for c, have in attrs.items() if used_on.get(recv, set()) <= have]
+        return cands[0] if len(cands) == 1 else None
+    plan = {}
+    for a in uses:
+        c = class_of(a.value.id)
+        hit = [(cn, sp, e) for cn, sp, e in props[a.attr] if cn == c]
+        if c is not None and len(hit) == 1:
+            plan[id(a)] = hit[0]
+    if not plan:
+        return f
+    node = norm.clone(f.node)
+    m = {id(o): c for o, c in zip(ast.walk(f.node), ast.walk(node))}
+    targets = {id(m[k]): v for k, v in plan.items()}
+
+    class T(ast.NodeTransformer):
+        def visit_Attribute(self, a):
+            hit = targets.get(id(a))
+            self.generic_visit(a)
+            if hit is not None:
+                _, selfp, e = hit
+                return ast.copy_location(norm.Subst({selfp: a.value}).visit(norm.clone(e)), a)
+            return a
+    node = T().visit(node)
+    ast.fix_missing_locations(node)
+    for n in ast.walk(node):
+        for ch in ast.iter_child_nodes(n):
+            ch._parent = n  # type: ignore[attr-defined]
+    node._parent = getattr(f.node, "_parent", None)  # type: ignore[attr-defined]
+    return _inline_new_properties(P, Func(f.mod, f.qual, node, f.cls))
+
+
 def _fold_literals(P: Program, f: Func) -> Func:
     """`Cls._fields` → the tuple of names; `list(<literal tuple>)` / `tuple(<literal list>)` → the display; a one-generator comprehension over a literal
     tuple / list of constants → the display it builds (`{c: g(getattr(r, c)) for c in ('a', 'b')}` → `{'a': g(r.a), 'b': g(r.b)}`)."""
@@ -834,6 +1003,8 @@ def _fold_literals(P: Program, f: Func) -> Func:
         if isinstance(x, ast.Call) and isinstance(x.func, (ast.Call, ast.Name)) and norm.call_name(x.func if isinstance(x.func, ast.Call) else x) in ("attrgetter", "getattr"):
             interesting = True
         if isinstance(x, (ast.DictComp, ast.ListComp, ast.SetComp)) and len(x.generators) == 1 and isinstance(x.generators[0].iter, (ast.Tuple, ast.List, ast.Attribute)):
+            interesting = True
+        if isinstance(x, ast.Compare) and len(x.ops) == 1 and isinstance(x.ops[0], (ast.Is, ast.IsNot)) and _scalar_literal(x.left) and _scalar_literal(x.comparators[0]):
             interesting = True
         if isinstance(x, ast.Call) and isinstance(x.func, ast.Name) and x.func.id in ("list", "tuple") and len(x.args) == 1 and isinstance(x.args[0], (ast.Tuple, ast.List, ast.Attribute)):
             interesting = True
@@ -849,8 +1020,12 @@ def _fold_literals(P: Program, f: Func) -> Func:
     node = norm.clone(f.node)
     changed = False
 
+    def simple(x):
+        return _scalar_literal(x) or isinstance(x, ast.Name) or norm.attr_chain(x) is not None \
+            or (isinstance(x, ast.Tuple) and all(simple(y) for y in x.elts))
+
     def lit_seq(e):
-        return isinstance(e, (ast.Tuple, ast.List)) and isinstance(e.ctx, ast.Load) and all(_scalar_literal(x) for x in e.elts)
+        return isinstance(e, (ast.Tuple, ast.List)) and isinstance(e.ctx, ast.Load) and all(simple(x) for x in e.elts)
 
     class T(ast.NodeTransformer):
         def visit_Attribute(self, n):
@@ -865,6 +1040,46 @@ def _fold_literals(P: Program, f: Func) -> Func:
             if r is not None:
                 changed = True
                 return r
+            return n
+
+        def visit_Compare(self, n):
+            nonlocal changed
+            self.generic_visit(n)
+            if len(n.ops) == 1 and isinstance(n.ops[0], (ast.Is, ast.IsNot)) and _scalar_literal(n.left) and isinstance(n.comparators[0], ast.Constant) and n.comparators[0].value is None:
+                is_none = isinstance(n.left, ast.Constant) and n.left.value is None
+                changed = True
+                return ast.copy_location(ast.Constant(value=(is_none if isinstance(n.ops[0], ast.Is) else not is_none)), n)     # `-1 is not None` (a default written in)
+            return n
+
+        def visit_BoolOp(self, n):
+            nonlocal changed
+            self.generic_visit(n)
+            consts = [v for v in n.values if isinstance(v, ast.Constant) and isinstance(v.value, bool)]
+            if not consts:
+                return n
+            absorbing = not isinstance(n.op, ast.And)          # True absorbs `or`, False absorbs `and`
+            out = []
+            for v in n.values:
+                if isinstance(v, ast.Constant) and isinstance(v.value, bool):
+                    if v.value is absorbing:
+                        out.append(v)
+                        break              # what follows is never evaluated
+                    continue               # neutral element
+                out.append(v)
+            changed = True
+            if not out:
+                return ast.copy_location(ast.Constant(value=not absorbing), n)
+            if len(out) == 1:
+                return out[0]
+            n.values = out
+            return n
+
+        def visit_If(self, n):
+            nonlocal changed
+            self.generic_visit(n)
+            if isinstance(n.test, ast.Constant) and isinstance(n.test.value, bool):
+                changed = True
+                return (n.body if n.test.value else n.orelse) or ast.copy_location(ast.Pass(), n)
             return n
 
         def visit_Subscript(self, n):
@@ -905,6 +1120,14 @@ def _fold_literals(P: Program, f: Func) -> Func:
                 parts = []
                 for c in g.iter.elts:
                     parts.append(build(lambda e, c=c: norm.Subst({v: c}).visit(norm.clone(e))))
+                changed = True
+                return parts
+            if len(n.generators) == 1 and not g.ifs and not g.is_async and isinstance(g.target, ast.Tuple) and all(isinstance(t, ast.Name) for t in g.target.elts) and lit_seq(g.iter) \
+                    and 0 < len(g.iter.elts) <= 32 and all(isinstance(c, ast.Tuple) and len(c.elts) == len(g.target.elts) for c in g.iter.elts):
+                names = [t.id for t in g.target.elts]
+                parts = []
+                for c in g.iter.elts:
+                    parts.append(build(lambda e, c=c: norm.Subst(dict(zip(names, c.elts))).visit(norm.clone(e))))
                 changed = True
                 return parts
             return None
@@ -1300,7 +1523,10 @@ def inline_helpers(P: Program, f: Func, depth: int = 2) -> Func:
     hit = _INLINE_CACHE.get(k)
     if hit is None or hit[0] is not P or hit[1] is not f.node:
         from .erase import erase
+        f0 = f
+        f = _inline_new_properties(P, f)             # `c.ram` (a new read-only property) is `c.assignment.ram`
         v = _inline_helpers(P, f, depth)
+        v = _inline_new_properties(P, v)             # ... also where it came in with a looked-through method (`self.ram` with self := c)
         if v is not f:
             v = _search_result_flow(v)               # what an Optional-returning search helper leaves behind
             v = _list_copy_alias(v)                  # `xs = list(<materialised generator>)`
@@ -1308,16 +1534,18 @@ def inline_helpers(P: Program, f: Func, depth: int = 2) -> Func:
         v = _local_objects(P, v)                     # a never-escaping instance of a small new class is a bundle of locals
         v = _plain_assignments(v)
         v = _bucket_reads(v)                         # group-by-field dict + lookup  ==  filter by that field
-        from .partition import partition_lists, exit_flag_flow
+        from .partition import partition_lists, exit_flag_flow, filter_writeback
+        v = filter_writeback(P, v)                   # select / process / filter with the complementary test  ==  drain the selection
         v = exit_flag_flow(P, v)                     # single exit with a result flag  ==  the early exits it stands for
         v = partition_lists(v)                       # kept/removed partition + `L[:] = kept`  ==  deferred removal of the removed members
         v = _named_literals(P, v)                    # a module constant the pinned tree does not have stands for its literal
         v = unroll_const_loops(P, v)                 # a loop over a constant table of literals is the sequence of its bodies
+        v = _local_dict_views(v)                     # a local dict display that is only looked at as a whole is the tuples of its keys / values
         v = _fold_literals(P, v)                     # Cls._fields, list(<literal>), comprehension over a literal tuple, class-level literals: written out
         v = inline_predicates(P, v)                  # side-effect-free one-expression helpers, wherever they are called (loop tests, arguments, ...)
         v = erase(P, v)                              # local records (NamedTuples) written back as tuples / separate locals
         v = _propagate_literals(_plain_assignments(v))
-        hit = (P, f.node, dealias(_loop_field_aliases(_index_loops(_genexp_loops(v))), subscripts=False))
+        hit = (P, f0.node, dealias(_loop_field_aliases(_index_loops(_genexp_loops(v))), subscripts=False))
         _INLINE_CACHE[k] = hit
     return hit[2]
 
@@ -1505,6 +1733,8 @@ def _search_result_flow(f: Func) -> Func:
                     rest = blk[i + 2:]
                     if _has_loop_jump(rest):
                         continue
+                    if not visibly and not (rest and isinstance(rest[-1], ast.Return)):
+                        continue          # only the early-return search (`for ..: if hit: ...; return R` / `return None` after it) is written back in this case
                     # move
                     stmts_b[kb:kb] = rest if visibly else [norm.clone(guard)] + rest
                     dead = isinstance(guard.body[-1], (ast.Return, ast.Raise)) and not any(isinstance(x, ast.Name) and x.id == X for b_ in guard.body for x in ast.walk(b_))
